@@ -1762,10 +1762,20 @@ impl<T: PPGEvaluatorStrategy> PPGEvaluator<T> {
                             .to_string(),
                     ));
                 }
-                JobState::Output(JobStateOutput::NotReady(vs))
-                | JobState::Ephemeral(JobStateEphemeral::NotReady(vs)) => match vs {
+                JobState::Output(JobStateOutput::NotReady(vs)) => match vs {
                     ValidationStatus::Unknown | ValidationStatus::Invalidated => return Ok(false),
                     ValidationStatus::Validated => {}
+                },
+                JobState::Ephemeral(JobStateEphemeral::NotReady(vs)) => match vs {
+                    ValidationStatus::Unknown | ValidationStatus::Invalidated => return Ok(false),
+                    ValidationStatus::Validated => {
+                        // a validated ephemeral still runs if one of *its* downstreams
+                        // turns out to need it - and then it needs us.
+                        if !Self::validated_ephemeral_surely_not_needed(dag, jobs, downstream_idx)
+                        {
+                            return Ok(false);
+                        }
+                    }
                 },
                 JobState::Output(JobStateOutput::FinishedUpstreamFailure)
                 | JobState::Ephemeral(JobStateEphemeral::FinishedUpstreamFailure)
@@ -1781,6 +1791,31 @@ impl<T: PPGEvaluatorStrategy> PPGEvaluator<T> {
             }
         }
         Ok(true)
+    }
+
+    /// true if every downstream of this (validated, not yet decided) ephemeral has been
+    /// decided not to run - looking through further validated ephemerals.
+    fn validated_ephemeral_surely_not_needed(
+        dag: &GraphType,
+        jobs: &[NodeInfo],
+        node_idx: NodeIndex,
+    ) -> bool {
+        for downstream_idx in dag.neighbors_directed(node_idx, Direction::Outgoing) {
+            match jobs[downstream_idx as usize].state {
+                JobState::Output(JobStateOutput::FinishedSkipped)
+                | JobState::Output(JobStateOutput::FinishedUpstreamFailure)
+                | JobState::Ephemeral(JobStateEphemeral::FinishedSkipped)
+                | JobState::Ephemeral(JobStateEphemeral::FinishedUpstreamFailure) => {}
+                JobState::Ephemeral(JobStateEphemeral::NotReady(ValidationStatus::Validated))
+                | JobState::Ephemeral(JobStateEphemeral::ReadyButDelayed) => {
+                    if !Self::validated_ephemeral_surely_not_needed(dag, jobs, downstream_idx) {
+                        return false;
+                    }
+                }
+                _ => return false,
+            }
+        }
+        true
     }
 
     fn all_upstreams_done(dag: &GraphType, jobs: &mut [NodeInfo], node_idx: NodeIndex) -> bool {
